@@ -16,7 +16,7 @@ structure MethodFacts where
   readsInLoop : Bool                -- `for { ReadFromUDP … callback }` vs a single Read
   reads : Nat
   sleepsForTimeout : Bool           -- `time.Sleep(u.timeout)` (Broadcast)
-deriving DecidableEq, Repr
+deriving DecidableEq, Repr, Inhabited
 
 end Uhppote.Model.Driver
 
